@@ -130,6 +130,11 @@ func (m *Machine) bigBytesBE(abs *Term, n int) []*Term {
 		}
 		return out
 	}
+	if abs.Op == OIAbs {
+		if x, ok := tt.AsSigned(abs.Args[0]); ok && x.S.W%8 == 0 {
+			abs = tt.BV2Nat(tt.AbsBV(x))
+		}
+	}
 	if abs.Op == OBV2Nat && abs.Args[0].S.W%8 == 0 {
 		// bytes of an unsigned machine integer: plain extracts
 		x := abs.Args[0]
@@ -383,7 +388,7 @@ func registerIntrinsics(m *Machine) {
 		if x.IsConst() {
 			return m.mkString(x.Big.String())
 		}
-		return StringV{Opaque: tt.UF("$bigstr", IntSort, x)}
+		return StringV{Opaque: tt.UF("$bigstr", BV(64), x)}
 	}
 	I["(*math/big.Int).Text"] = func(m *Machine, fr *frame, a []Value, c *ssa.CallCommon) Value {
 		x := m.bigOf(a[0])
@@ -391,7 +396,7 @@ func registerIntrinsics(m *Machine) {
 		if x.IsConst() && ok {
 			return m.mkString(x.Big.Text(int(base)))
 		}
-		return StringV{Opaque: tt.UF("$bigtext", IntSort, x, a[1].(*Term))}
+		return StringV{Opaque: tt.UF("$bigtext", BV(64), x, a[1].(*Term))}
 	}
 	I["(*math/big.Int).SetString"] = func(m *Machine, fr *frame, a []Value, c *ssa.CallCommon) Value {
 		s, ok := a[1].(StringV).Concrete()
@@ -943,9 +948,69 @@ func (m *Machine) atomicIntrinsic(fn *ssa.Function) intrinsicFn {
 	return nil
 }
 
+// cellAddr gives a cell a stable fake address (distinct per cell, deterministic along a path).
+func (m *Machine) cellAddr(c *Cell) uint64 {
+	if m.addrs == nil {
+		m.addrs = map[*Cell]uint64{}
+	}
+	if a, ok := m.addrs[c]; ok {
+		return a
+	}
+	m.addrSeq++
+	a := 0xc000000000 + m.addrSeq*64
+	m.addrs[c] = a
+	return a
+}
+
 func registerMoreIntrinsics(m *Machine) {
 	I := m.intrinsic
 	tt := m.TT
+	I["reflect.ValueOf"] = func(m *Machine, fr *frame, a []Value, c *ssa.CallCommon) Value {
+		return OpaqueV{Kind: "reflect.Value", ID: tt.IntConst64(0), Payload: a[0]}
+	}
+	I["(reflect.Value).Pointer"] = func(m *Machine, fr *frame, a []Value, c *ssa.CallCommon) Value {
+		ov, ok := a[0].(OpaqueV)
+		if !ok {
+			panic(m.unsupported("reflect.Value.Pointer on non-engine value"))
+		}
+		iv, _ := ov.Payload.(IfaceV)
+		switch x := iv.V.(type) {
+		case SliceV:
+			if x.Arr == nil {
+				return tt.BVConst(64, 0)
+			}
+			if x.Off < len(x.Arr.Kids) {
+				return tt.BVConst(64, m.cellAddr(x.Arr.Kids[x.Off]))
+			}
+			return tt.BVConst(64, m.cellAddr(x.Arr)+uint64(x.Off))
+		case MapV:
+			if x.M == nil {
+				return tt.BVConst(64, 0)
+			}
+			return tt.BVConst(64, m.cellAddr(x.M.C))
+		case PtrV:
+			if x.IsNil() {
+				return tt.BVConst(64, 0)
+			}
+			return tt.BVConst(64, m.cellAddr(x.C))
+		}
+		panic(m.unsupported(fmt.Sprintf("reflect.Value.Pointer of %T", iv.V)))
+	}
+	I["sort.Strings"] = func(m *Machine, fr *frame, a []Value, c *ssa.CallCommon) Value {
+		s := a[0].(SliceV)
+		cells := s.cells()
+		for i := 1; i < len(cells); i++ {
+			for j := i; j > 0; j-- {
+				x, y := cells[j].V.(StringV), cells[j-1].V.(StringV)
+				if !m.Branch(m.bytesLess(x.B, y.B, false)) {
+					break
+				}
+				m.storeCell(cells[j], y)
+				m.storeCell(cells[j-1], x)
+			}
+		}
+		return nil
+	}
 	// time.Date on concrete arguments (location treated as UTC): Time{wall: nsec, ext: seconds since year 1, loc: nil}
 	I["time.Date"] = func(m *Machine, fr *frame, a []Value, c *ssa.CallCommon) Value {
 		var v [7]int
